@@ -16,7 +16,9 @@ def run(ctx):
     from ..volumes import rule_V2
     rule_M1(ctx)
     rule_V2(ctx)      # leaf level: the ellipsoid sampler and contains() use inverse matrices
-    from ..volumes import rule_V3
+    from ..volumes import rule_V3, rule_V4
+    k4 = rule_V4(ctx)
+    ctx.require(k4 >= 5, 'V4 decided only %d enclosure obligations (floor 5)' % k4)
     k3 = rule_V3(ctx)
     ctx.require(k3 >= 2, 'V3 decided only %d enclosure sites (floor 2)' % k3)
     from ..effects import rule_F9
